@@ -490,6 +490,35 @@ func C09(c *runner.Cfg) *report.Result {
 				res.Violate("c09:no-recovery-in-sequence", fmt.Sprintf("fault sequence round %d (auto=%v): client flags did not settle after the fault", round, auto), nil)
 				return
 			}
+			// the server becomes unreachable for a while: calls made meanwhile fail (a refused dial),
+			// and once it is reachable again the next call of an on-demand client succeeds
+			if rr.Bool() {
+				proxy.Outage(true)
+				for k, n := 0, 1+rr.Intn(3); k < n; k++ {
+					ch, st := mcl.Channel(async.TimeoutContext(500 * time.Millisecond))
+					if st.OK() {
+						// possible only if a connection survived the outage, which the proxy excludes
+						ch.Free()
+					}
+				}
+				if err := proxy.Restore(); err != nil {
+					res.Inconcl("fault sequence %d: the proxy could not listen again: %v", idx, err)
+					return
+				}
+				if !auto {
+					ch, st := mcl.Channel(async.TimeoutContext(Watchdog))
+					if !st.OK() {
+						res.Violate("c09:on-demand-next-call-fails", fmt.Sprintf("round %d: calls failed while the server was unreachable (refused dials); it is reachable again, yet the next Channel call of the on-demand client returned %v", round, st), nil)
+						return
+					}
+					ch.Free()
+					res.Count("on_demand_calls_after_refused_dials", 1)
+				} else if !Settle(Watchdog/2, func() bool { return mcl.Connected().IsSet() }) {
+					c.Abort.Store(true)
+					res.Violate("c09:no-recovery-in-sequence", fmt.Sprintf("fault sequence round %d: the auto-connect client did not reconnect after the server became reachable again", round), nil)
+					return
+				}
+			}
 		}
 		ch, st := mcl.Channel(noCtx)
 		if !st.OK() {
